@@ -1,15 +1,29 @@
-"""World for the StateMachine model: one validator set G (4 x power 1); at every height the blocks A, B
+"""World for the StateMachine model: validator sets G (4 x power 1) and G2 (4 x power 2) alternating; at every height the blocks A, B
 (acceptable) and M1 (PrevAppStateHash the state machine must reject); A<h> extends A<h-1>."""
 from tlagen import S, module
 
 
-def sm_world(max_h=4):
-    w = {"valsets": {"G": {"keys": [1, 2, 3, 4], "pow": [1, 1, 1, 1]}}, "genesis": "G", "hdr": {}}
+def fin_set(h):
+    """the validator set the driver returns when it finalizes height h (it applies from h+2 on)"""
+    return "G2" if h % 2 == 1 else "G"
+
+
+def vs_at(h):
+    """the validator set the chain prescribes for height h"""
+    return "G" if h <= 2 else fin_set(h - 2)
+
+
+def sm_world(max_h=5):
+    # the application changes the vote powers at every height (same keys, all powers doubled / halved, so that the
+    # thresholds stay "3 of 4 validators" as StateMachine.tla assumes): finalizing h returns fin_set(h)
+    w = {"valsets": {"G": {"keys": [1, 2, 3, 4], "pow": [1, 1, 1, 1]}, "G2": {"keys": [1, 2, 3, 4], "pow": [2, 2, 2, 2]}},
+         "genesis": "G", "hdr": {}}
     for h in range(1, max_h + 1):
         prev = "gen" if h == 1 else "A%d" % (h - 1)
         pcp = {} if h == 1 else {"A%d" % (h - 1): [{"pos": 1, "cls": "ok"}, {"pos": 2, "cls": "ok"}, {"pos": 3, "cls": "ok"}]}
         for b in ("A", "B", "M1"):
-            d = {"h": h, "prev": prev, "vs": "G", "nvs": "G", "pcpR": 0, "pcpPkh": "none" if h == 1 else "G", "pcp": pcp, "data": "%s%d" % (b, h)}
+            d = {"h": h, "prev": prev, "vs": vs_at(h), "nvs": vs_at(h + 1), "pcpR": 0, "pcpPkh": "none" if h == 1 else vs_at(h - 1),
+                 "pcp": pcp, "data": "%s%d" % (b, h)}
             if b == "M1":
                 d["app"] = "some_other_app_state"
             w["hdr"]["%s%d" % (b, h)] = d
